@@ -63,6 +63,7 @@ func (st *State) symbolic(t types.Type, name string, prov func(ls leafShape) *Pr
 				st.mem[p.Space] = &MemVer{kind: mBase, term: an}
 			}
 			out = vPtr(n, p)
+			st.assume(app("bvult", n, bvLit(maxAddr, 64))) // user-space addresses; object sizes never wrap
 		default:
 			st.decl(n, sortBV(ls.W))
 			out = vBV(n, ls.W, ls.Signed)
@@ -179,7 +180,10 @@ func fnKey(fn *ssa.Function) string {
 		if named, ok := rt.(*types.Named); ok && named.Obj().Pkg() != nil {
 			pkg = shortPkg(named.Obj().Pkg().Path())
 		}
-		// strip instantiation brackets out of the method name (ssa names it plainly)
+		// instantiated methods are named Read[int16]: the type arguments already appear in the receiver
+		if i := strings.Index(name, "["); i >= 0 {
+			name = name[:i]
+		}
 		return pkg + "." + star + tn + "." + name
 	}
 	if i := strings.Index(name, "["); i >= 0 && len(fn.TypeArgs()) > 0 {
@@ -194,6 +198,28 @@ func fnKey(fn *ssa.Function) string {
 
 // genericKey replaces concrete type arguments by the type parameter names.
 func genericKey(fn *ssa.Function) (string, map[string]types.Type) {
+	if recv := fn.Signature.Recv(); recv != nil {
+		// methods (including synthesised wrappers for promoted methods): use the receiver's type arguments
+		rt := recv.Type()
+		if p, ok := rt.(*types.Pointer); ok {
+			rt = p.Elem()
+		}
+		if named, ok := rt.(*types.Named); ok && named.TypeArgs() != nil && named.TypeArgs().Len() > 0 {
+			key := fnKey(fn)
+			tps := named.Origin().TypeParams()
+			tp := map[string]types.Type{}
+			var to []string
+			for i := 0; i < named.TypeArgs().Len() && i < tps.Len(); i++ {
+				tp[tps.At(i).Obj().Name()] = named.TypeArgs().At(i)
+				to = append(to, tps.At(i).Obj().Name())
+			}
+			lb, rb := strings.Index(key, "["), strings.Index(key, "]")
+			if lb >= 0 && rb > lb {
+				return key[:lb+1] + strings.Join(to, ",") + key[rb:], tp
+			}
+		}
+		return "", nil
+	}
 	if len(fn.TypeArgs()) == 0 {
 		return "", nil
 	}
@@ -716,6 +742,16 @@ func (x *Exec) cutLoop(st *State, fr *Frame, ld *loopDesc, spec *LoopSpec, phis 
 	}()
 	x.havocLoop(st, fr, ld, phis, rec.mods)
 	env := x.loopEnv(st, fr, ld)
+	{
+		henv := x.loopEnv(st, fr, ld)
+		henv.harvest, henv.skolems = true, map[*CExpr]V{}
+		for _, g := range spec.GhostDefs {
+			x.harvestClause(henv, g.Expr)
+		}
+		for _, inv := range spec.Invariants {
+			x.harvestClause(henv, inv.Expr)
+		}
+	}
 	for i, inv := range spec.Invariants {
 		t, err := env.evalBool(inv.Expr)
 		if err == nil {
